@@ -62,4 +62,4 @@ def _seeds():
     return out
 
 
-TARGETS = {"index_file": dict(fn=index_file, seeds=_seeds, max_len=1500, imports=["dulwich.index"], warmup=_ctx)}
+TARGETS = {"index_file": dict(fn=index_file, seeds=_seeds, max_len=1500, imports=["dulwich.index"], warmup=_ctx, reset=_state.clear)}
